@@ -13,12 +13,18 @@ META = {
                   "(constructors + seek give the specified 16-word layouts; X: HChaCha subkey), C01_block_djb/_ietf/_x "
                   "(constructor, seek to block ctr, refill = spec_block), C01_wide_lanes_eq_narrow. The spec reproduces "
                   "RFC 7539 2.3.2/2.4.2, the HChaCha20 draft vector, the ChaCha8/12/20 zero-key vectors and the four "
-                  "vectors of the repository (C01_kats). The byte-position statement for apply_keystream is the corollary "
-                  "of these with the C02 history theorem and C14; here it is tied by running seek+apply_keystream of the "
-                  "implementation, the model and the spec on the same generated cases inside coqc.",
+                  "vectors of the repository (C01_kats). End to end (Proofs/ChaChaCompose.v, composing the block theorems with the C02 "
+                  "history theorem and C14): C01_apply_keystream_eq_spec / C01_model_history_eq_spec_machine (for the seven cipher "
+                  "types, every key, nonce and EVERY finite history of seek / apply_keystream / current_pos the model of the "
+                  "wrapper behaves as the abstract position machine over the specified key stream, byte p = byte p mod 64 of "
+                  "the specified block p / 64, and no step panics), C01_seek_apply_after_history_eq_spec / C01_seek_apply_eq_spec "
+                  "(seek p then apply data returns Spec.ChaCha.spec_apply at p, after any history), C01_spec_apply_bytes, "
+                  "C01_refill_at_counter_eq_spec_block; the RFC 7539 2.4.2 vector goes through seek+apply by the theorem. "
+                  "Implementation = model = spec is checked by running seek+apply_keystream (a third of the cases after a "
+                  "prefix history on the same object) on generated cases inside coqc.",
     "level_note": "Trusted: Coq kernel+VM; Spec/ChaCha.v transcription (anchored by 10 published vectors); hand-written "
                   "model Model/ChaChaGuts.v + Model/ChaChaStream.v tied on generated cases; harness. No axioms.",
-    "rule": "cases = (cipher type, key, nonce, byte position, data) from seeded xoshiro: 7 types round-robin; first 14 cases "
+    "rule": "cases = (cipher type, key, nonce, [prefix history on the same object: boundary-directed or random seeks/applies/position queries, every third case], byte position, data) from seeded xoshiro: 7 types round-robin; first 14 cases "
             "fixed patterns at position 0 and 64; then positions near 0, 2^32 blocks (low counter word carry), 2^38 (IETF "
             "end), 2^64, random; lengths 0..320 (thorough: ..1100) covering buffered prefix, 256-byte wide path and tail; "
             "distinct = distinct (type,key,nonce,pos,data); non-trivial = non-empty data; the implementation's result "
